@@ -100,6 +100,14 @@ func genOps(t *rapid.T, label string, lo, hi int, s *sut.Server) []op {
 		}
 		ops = append(ops, op{Actor: actor, Cmd: sanitize(genCmd(t, m))})
 	}
+	if label == "ops" && rapid.IntRange(0, 4).Draw(t, "expscenario") == 0 {
+		// a key expires (nothing looks at it afterwards) and the next command writes it anew because it is gone:
+		// the log has to record that the old value was gone, or the replay applies the new write to the old value
+		k := gen.Key(t, keys, "ek")
+		first := rapid.SampledFrom([][]string{{"SET", k, "old", "PX", "1500"}, {"SET", k, "old", "EX", "1"}}).Draw(t, "efirst")
+		then := rapid.SampledFrom([][]string{{"SET", k, "new", "NX"}, {"RPUSH", k, "x", "y"}, {"APPEND", k, "tail"}, {"HSET", k, "f", "v"}, {"SADD", k, "m"}, {"INCR", k}, {"SETRANGE", k, "0", "Z"}, {"LPUSH", k, "e"}, {"ZADD", k, "1", "m"}}).Draw(t, "ethen")
+		ops = append(ops, op{Actor: "emb", Cmd: first}, op{Actor: "emb", Advance: 70000}, op{Actor: "emb", Cmd: then})
+	}
 	// the last command is the one whose logging is dissected: it has to be a write
 	for i := len(ops) - 1; i >= 0; i-- {
 		if ops[i].Cmd != nil {
@@ -294,6 +302,7 @@ func runCase(t *rapid.T, replay *workload) {
 	conn.Close()
 	s.Close()
 	time.Sleep(time.Millisecond)
+	matched := -1 // index of the recorded digest the last check() found the restored dataset equal to
 	check := func(what string, dir string, clockMs int64, allowed ...int) sut.Digest {
 		got, err := c.restore(dir, clockMs)
 		if err != nil {
@@ -311,6 +320,7 @@ func runCase(t *rapid.T, replay *workload) {
 			}
 			d := got.Diff(want)
 			if d == "" {
+				matched = idx
 				return got
 			}
 			diffs = append(diffs, fmt.Sprintf("vs D_%d: %s", idx, d))
@@ -332,6 +342,7 @@ func runCase(t *rapid.T, replay *workload) {
 	}
 	// (3) torn final record
 	var tornDir string
+	tornBase := -1
 	if finalLen > lastLogBefore && ncmd > 0 {
 		step := int64(1)
 		if finalLen-lastLogBefore > 400 {
@@ -346,10 +357,13 @@ func runCase(t *rapid.T, replay *workload) {
 			if err := os.Truncate(logPath(dir), cut); err != nil {
 				t.Fatalf("HARNESS-ERROR: %v", err)
 			}
-			check(fmt.Sprintf("torn final record (log cut at byte %d of %d, last command starts at %d)", cut, finalLen, lastLogBefore), dir, nowMs, ncmd-1)
+			// (The bytes after lastLogBefore are not always one record: the removal of a key found expired — by the
+			// command or by the reads that recorded D_n — is logged as a record of its own, before or after the
+			// command's record. A cut can therefore leave the command's own record complete.)
+			check(fmt.Sprintf("torn final record (log cut at byte %d of %d, last command starts at %d)", cut, finalLen, lastLogBefore), dir, nowMs, ncmd-1, ncmd)
 			rec.Add("crash_points", 1)
 			rec.Add("torn_offsets", 1)
-			tornDir = dir
+			tornDir, tornBase = dir, matched
 		}
 	}
 	// (4) power loss under always: everything acknowledged has been fsynced
@@ -391,9 +405,9 @@ func runCase(t *rapid.T, replay *workload) {
 	// (6) second generation on the recovered (torn, if any) directory
 	g2dir := dataDir
 	base := ncmd
-	if tornDir != "" {
+	if tornDir != "" && tornBase >= 0 {
 		g2dir = tornDir
-		base = ncmd - 1
+		base = tornBase
 	}
 	clk := verifhook.NewVirtualClock(time.UnixMilli(nowMs + w.AdvanceBetween))
 	expectAfterRestart := c.D[base]
